@@ -7,6 +7,8 @@ strategy class is missing here, so new strategies cannot silently escape."""
 
 import inspect
 
+import copy
+
 import numpy as np
 
 
@@ -114,6 +116,13 @@ def model_kwargs(entry, missing_label, classes, seed=0, variant=0):
         return {"clf": _clf(missing_label, classes, seed)}
     if m == "clf_logreg":
         return {"clf": _sk_clf(missing_label, classes, seed)}
+    if m == "clf_nb_partial":
+        from sklearn.naive_bayes import GaussianNB
+
+        from skactiveml.classifier import SklearnClassifier
+
+        return {"clf": SklearnClassifier(GaussianNB(), classes=list(classes), missing_label=missing_label,
+                                         random_state=seed), "ignore_partial_fit": False}
     if m == "reg":
         ml = np.nan if classes is not REG else missing_label      # (classification encodings do not apply to regressors)
         return {"reg": (_reg, _sk_reg)[variant % 2](seed, ml) if entry.cls_name != "RegressionTreeBasedAL"
@@ -148,7 +157,7 @@ def entries():
         kw = kw or {}
 
         def make(seed, missing_label=np.nan, classes=(0, 1), _c=cls_name, _kw=kw, _nc=needs_classes):
-            k = dict(_kw)
+            k = copy.deepcopy(_kw)      # (estimator-valued parameters: a fresh object per strategy)
             if _nc:
                 k["classes"] = list(classes)
             return getattr(P, _c)(missing_label=missing_label, random_state=seed, **k)
@@ -204,6 +213,43 @@ def entries():
     for m in ("random", "diversity", "representativity"):
         add("RegressionTreeBasedAL(%s)" % m, "RegressionTreeBasedAL", {"method": m}, model="reg", cost=2)
     add("Falcun", "Falcun", model="clf_embed", selection="sampling", cost=2)
+    # ---- parameter sweep: one documented non-default value for the constructor / query parameters that the
+    # configurations above leave at their defaults (boundary values where the documentation names them)
+    from sklearn.tree import DecisionTreeRegressor
+
+    add("Falcun(gamma=0)", "Falcun", {"gamma": 0}, model="clf_embed", selection="sampling", cost=3)
+    add("Falcun(gamma=1)", "Falcun", {"gamma": 1.0}, model="clf_embed", selection="sampling", cost=3)
+    add("CostEmbeddingAL(base_regressor,embed_dim=2)", "CostEmbeddingAL",
+        {"base_regressor": DecisionTreeRegressor(random_state=0), "embed_dim": 2}, needs_classes=True, model=None,
+        samplewise=True, cost=3)
+    for m in ("GSy", "GSi"):
+        add("GreedySamplingTarget(%s,n_GSx_samples=3)" % m, "GreedySamplingTarget", {"method": m, "n_GSx_samples": 3},
+            model="reg", cost=3)
+    add("ProbabilisticAL(prior=0.5,m_max=2)", "ProbabilisticAL", {"prior": 0.5, "m_max": 2}, model="clf_freq",
+        samplewise=True, cost=3)
+    add("Quire(lmbda=0.5,rbf)", "Quire", {"lmbda": 0.5, "metric": "rbf", "metric_dict": {"gamma": 0.5}},
+        needs_classes=True, model=None, rows=False, arbitrary_idx=False, samplewise=True, cost=3)
+    add("BatchBALD(n_MC_samples=5)", "BatchBALD", {"n_MC_samples": 5}, model="ensemble", cost=3)
+    add("GreedyBALD(eps=1e-3)", "GreedyBALD", {"eps": 1e-3}, model="ensemble", samplewise=True, cost=3)
+    add("QueryByCommittee(KL_divergence,eps=1e-3)", "QueryByCommittee", {"method": "KL_divergence", "eps": 1e-3},
+        model="ensemble", samplewise=True, cost=3)
+    add("ExpectedModelChangeMaximization(bootstrap_size=2,ord=1)", "ExpectedModelChangeMaximization",
+        {"bootstrap_size": 2, "ord": 1}, model="reg", cost=3)
+    add("FourDs(lmbda=0.3)", "FourDs", {"lmbda": 0.3}, model="fourds", cost=3)
+    add("ProbCover(alpha=0.5)", "ProbCover", {"alpha": 0.5}, model=None, rows=False, cost=3)
+    add("TypiClust(k=2)", "TypiClust", {"k": 2}, model=None, rows=False, cost=3)
+    add("ValueOfInformationEER(consider_unlabeled)", "ValueOfInformationEER", {"consider_unlabeled": True},
+        model="clf", rows=False, samplewise=True, arbitrary_idx=False, cost=3)
+    add("ValueOfInformationEER(candidate_to_labeled)", "ValueOfInformationEER", {"candidate_to_labeled": True},
+        model="clf", rows=False, samplewise=True, arbitrary_idx=False, cost=3)
+    add("DropQuery(dropout_rate=0.5,n_dropout_samples=4)", "DropQuery", {"dropout_rate": 0.5, "n_dropout_samples": 4},
+        model="clf_embed", rows=False, cost=3)
+    # query(..., ignore_partial_fit=False) with a classifier that implements partial_fit: the simulated updates of
+    # the expected error reduction loop use the classifier's own partial_fit
+    add("MonteCarloEER(partial_fit)", "MonteCarloEER", {"method": "misclassification_loss"}, model="clf_nb_partial",
+        samplewise=True, arbitrary_idx=False, cost=3)
+    add("ValueOfInformationEER(partial_fit)", "ValueOfInformationEER", model="clf_nb_partial", rows=False,
+        samplewise=True, arbitrary_idx=False, cost=3)
     return E
 
 
